@@ -80,65 +80,42 @@ Definition text_modelled (c : case) : bool :=
      | None => true
      end.
 
+Fixpoint has_data (t : cty) : bool :=
+  match t with
+  | CData _ => true
+  | CUnion ts | CTuple ts => existsb has_data ts
+  | CList t1 | CDict _ t1 | CTupleVar t1 | CSet t1 => has_data t1
+  | _ => false
+  end.
+
+(* a dataclass-typed value goes through a nested YAML text already while it is serialised: where the text layer is
+   outside the model, so is the data handed to the outer dumper *)
+Definition dumped_modelled (c : case) : bool :=
+  text_modelled c || negb (existsb (fun lw => has_data (lf_ty (fst lw))) (c_leaves c)).
+
+(* save()'s skip_none inside a dataclass-typed value (finding class 1): what the parser makes of the emptied nested
+   mappings (`lim: {}`) is not modelled; the property verdict does not depend on it *)
+Definition nested_none_dropped (c : case) : bool :=
+  vr_skip_none (c_var c)
+  && existsb (fun lw => none_loss (top_fill (lf_ty (fst lw))) (lf_ty (fst lw)) (snd lw)) (c_leaves c).
+
 Definition judge1 (c : case) : verdict :=
   {| v_model :=
        (if vr_comments (c_var c) then match c_dumped c with None => true | d => olist_eqb oveq (model_dumped c) d end
-        else olist_eqb oveq (model_dumped c) (c_dumped c))
+        else if dumped_modelled c then olist_eqb oveq (model_dumped c) (c_dumped c) else true)
        && forallb str_tie (c_strs c) && forallb float_tie (c_floats c)
        && (if text_modelled c then
              match c_dumped c with
              | Some d => olist_eqb oveq (Some (map (option_map (model_reload c)) d)) (c_reloaded c)
              | None => true
              end
-             && olist_eqb veq (model_out c) (c_out c)
+             && (if nested_none_dropped c then true else olist_eqb veq (model_out c) (c_out c))
            else true);
      v_class := cls c;
      v_spec := olist_eqb veq (c_out c) (Some (map snd (c_leaves c))) |}.
 
 Definition judge (cs : list case) := judge_all judge1 cs.
 
-(* ---- the tree with fixes/C01-skip-default-trims-dict-leaf.patch applied ------------------------------------------
-   _dump_delete_default_entries no longer descends into dict VALUES: an entry is dropped when it == its default and kept
-   whole otherwise.  Set JUDGE = "judge_fixed" in tie/props/c01.py (and drop class 2 from FINDING_CLASSES and the open:
-   line) when the fix lands.  Inside the guard (class 0) trim and trim_fixed coincide, so C01_dump_parse_roundtrip speaks
-   about the repaired code unchanged; class 2 cases then simply satisfy the property. *)
-Definition trim_fixed (j dj : val) : option val := if py_eq j dj then None else Some j.
-
-Definition dump_entry_fx (yl : str -> option val) (vr : variant) (lf : leaf) (w : val) : entry :=
-  match cleanup yl true (vr_skip_none vr) (lf_ty lf) (lf_def lf) w with
-  | EPresent j =>
-      if vr_skip_default vr then
-        match cleanup yl false (vr_skip_none vr) (lf_ty lf) (lf_def lf) (lf_def lf) with
-        | EPresent dj => match trim_fixed j dj with Some j' => EPresent j' | None => EAbsent end
-        | _ => EPresent j
-        end
-      else EPresent j
-  | e => e
-  end.
-
-Definition model_dumped_fx (c : case) : option (list (option val)) :=
-  map_opt (fun lw => entry_opt (dump_entry_fx (c_yl c) (c_var c) (fst lw) (snd lw))) (c_leaves c).
-
-Definition model_out_fx (c : case) : option (list val) :=
-  map_opt (fun lw => match dump_entry_fx (c_yl c) (c_var c) (fst lw) (snd lw) with
-                     | EErr => None
-                     | EAbsent => Some (lf_def (fst lw))
-                     | EPresent j => check_entry (c_yl c) (lf_ty (fst lw)) (lf_def (fst lw)) (model_reload c j)
-                     end) (c_leaves c).
-
-Definition judge1_fixed (c : case) : verdict :=
-  {| v_model :=
-       (if vr_comments (c_var c) then match c_dumped c with None => true | d => olist_eqb oveq (model_dumped_fx c) d end
-        else olist_eqb oveq (model_dumped_fx c) (c_dumped c))
-       && forallb str_tie (c_strs c) && forallb float_tie (c_floats c)
-       && (if text_modelled c then
-             match c_dumped c with
-             | Some d => olist_eqb oveq (Some (map (option_map (model_reload c)) d)) (c_reloaded c)
-             | None => true
-             end
-             && olist_eqb veq (model_out_fx c) (c_out c)
-           else true);
-     v_class := cls c;
-     v_spec := olist_eqb veq (c_out c) (Some (map snd (c_leaves c))) |}.
-
-Definition judge_fixed (cs : list case) := judge_all judge1_fixed cs.
+(* kept so that JUDGE = "judge_fixed" (the name used while fixes/C01-skip-default-trims-dict-leaf.patch was pending)
+   still resolves: the model itself now has the repaired behaviour (/repo d576475) *)
+Definition judge_fixed (cs : list case) := judge cs.
